@@ -32,8 +32,8 @@ func WithWidth(width int) ContainerOption {
 
 // WithQueueLen sets buffer size of heap manager channel. Ideally it must be
 // kept at MAX value, where MAX is number of bars to be rendered at the same
-// time. If len < MAX then backpressure to the scheduler will be increased as
-// MAX-len extra goroutines will be launched at each render cycle.
+// time. If len < MAX then container goroutine will block on push
+// until heap manager has drained its queue.
 // Default queue len is 128.
 func WithQueueLen(len int) ContainerOption {
 	return func(s *pState) {
